@@ -51,6 +51,7 @@ func TestVerif(t *testing.T) {
 		verifAddresser(t, r, out)
 	case "C11":
 		verifC11(t, r, out)
+		verifSlowDial(t, r, out)
 	case "C04":
 		verifSysctl(t, r, out)
 		verifSysctlConc(t, r, out)
